@@ -67,12 +67,12 @@ theorem view_wholeA (mem : Mem α) (p : Nat) : mem.view (wholeA p (mem.arr p).le
   simp [Mem.view, wholeA]
 
 /-- `array_.AsArray` as written in array.go: a fresh array with the same contents -/
-theorem arrayAsArray_tie (mem : Mem α) (p : Nat) (fuel : Nat) (hp : p < mem.length) :
+theorem arrayAsArray_tie (mem : Mem α) (p : Nat) (fuel : Nat) (hp : p < mem.length) (hint : IsInt64 ((mem.arr p).length : Int)) :
     ∃ mem', Generated.arrayAsArray (wholeA p (mem.arr p).length) mem fuel = some (.ok (wholeA mem.length (mem.arr p).length, mem'))
       ∧ mem'.arr mem.length = mem.arr p ∧ mem'.length = mem.length + 1 ∧ ∀ c, c < mem.length → mem'.arr c = mem.arr c := by
   unfold Generated.arrayAsArray
   have e : ((wholeA p (mem.arr p).length).len : Int) = ((mem.arr p).length : Int) := rfl
-  simp only [e, make_ok, bindE_ok]
+  simp only [e, make_ok mem _ hint, bindE_ok]
   rw [copy_eq]
   have hne : p ≠ mem.length := by omega
   have hv : (mem ++ [List.replicate (mem.arr p).length (default : α)]).view ⟨p, 0, (mem.arr p).length, (mem.arr p).length⟩ = mem.arr p := by
@@ -125,7 +125,7 @@ theorem arrayGetValues_tie (mem : Mem α) (p : Nat) (first last : Int) (fuel : N
           rw [w64_id (x := (la : Int) - (f : Int)) (by unfold IsInt64 at *; omega), w64_id (by unfold IsInt64 at *; omega)]; omega
         rw [e2]
         clear e2
-        simp only [make_ok, bindE_ok]
+        simp only [make_ok mem (la + 1 - f) (by unfold IsInt64 at *; omega), bindE_ok]
         rw [copy_eq]
         have hne : p ≠ mem.length := by omega
         have ha : (mem ++ [List.replicate (la + 1 - f) (default : α)]).arr p = mem.arr p := by rw [arr_append_new]; simp [hne]
@@ -184,6 +184,30 @@ theorem arrayGetSize_tie (mem : Mem α) (p : Nat) (fuel : Nat) :
 
 theorem arrayIsEmpty_tie (mem : Mem α) (p : Nat) (fuel : Nat) :
     Generated.arrayIsEmpty (wholeA p (mem.arr p).length) mem fuel = some (.ok ((((mem.arr p).length : Int) == 0), mem)) := rfl
+
+/-! ### the class constructors: what they hand out is a fresh array (C18: nothing passed in is kept) -/
+
+/-- `arrayClass_.MakeFromArray` as written in array.go: a fresh array (a new array id) with the contents of the Go array
+    passed in, which is not touched -/
+theorem arrayClassMakeFromArray_tie (mem : Mem α) (p : Nat) (fuel : Nat) (hp : p < mem.length) (hint : IsInt64 ((mem.arr p).length : Int)) :
+    ∃ mem', Generated.arrayClassMakeFromArray (wholeA p (mem.arr p).length) mem fuel
+        = some (.ok (wholeA mem.length (mem.arr p).length, mem'))
+      ∧ mem'.arr mem.length = mem.arr p ∧ mem'.length = mem.length + 1 ∧ ∀ c, c < mem.length → mem'.arr c = mem.arr c :=
+  arrayAsArray_tie mem p fuel hp hint
+
+/-- `arrayClass_.Make` as written in array.go: a fresh array of zero values -/
+theorem arrayClassMake_tie (mem : Mem α) (n : Nat) (fuel : Nat) (h : IsInt64 (n : Int)) :
+    Generated.arrayClassMake (n : Int) mem fuel
+      = some (.ok (wholeA mem.length n, mem ++ [List.replicate n (default : α)])) := by
+  unfold Generated.arrayClassMake
+  simp only [make_ok mem n h, bindE_ok, wholeA]
+
+/-- … and a size beyond the range of `int` is a Go runtime error, not a huge array -/
+theorem arrayClassMake_huge (mem : Mem α) (size : Int) (fuel : Nat) (h : 9223372036854775808 ≤ size) :
+    Generated.arrayClassMake size mem fuel = some (.error .rt) := by
+  unfold Generated.arrayClassMake Mem.make
+  have : ¬ (0 ≤ size ∧ size < 9223372036854775808) := by omega
+  simp [this]
 
 /-- non-vacuity -/
 example : Generated.arrayGetValue (wholeA 0 3) (-1 : Int) [[(10 : Int), 20, 30]] 1 = some (.ok (30, [[10, 20, 30]])) := by rfl
